@@ -177,52 +177,54 @@ const CLASSGROUP_FBSIZES: &[(u32, u32, u32)] = &[
 /// to φ(d1)/2 (polynomial degree) for optimal cost.
 const STAGE2_PARAMS: &[(f64, u64, u64)] = &[
     // B2, d1, d2
+    // B2 never exceeds (d2 - 1) * d1 + d1 / 2 - 1, the largest value reached by
+    // stage 2 of P+1 (ECM reaches one more giant step).
     // Using quadratic method, d2=φ(d1)/2, cost d2^2
-    (660., 66, 10),
-    (1080., 90, 12),
-    (1920., 120, 16),
-    (3e3, 150, 20),
-    (5.04e3, 210, 24),
-    (7.7e3, 240, 32),
-    (13.2e3, 330, 40),
-    (20e3, 420, 48),
-    (33e3, 510, 64),
-    (53e3, 660, 80),
-    (81e3, 840, 96),
-    (126e3, 1050, 120),
-    (181e3, 1260, 144),
-    (323e3, 1680, 192),
-    (554e3, 2310, 240),
-    (786e3, 2730, 288),
-    (1.37e6, 3570, 384),
+    (626., 66, 10),
+    (1034., 90, 12),
+    (1859., 120, 16),
+    (2924., 150, 20),
+    (4934., 210, 24),
+    (7559., 240, 32),
+    (13.03e3, 330, 40),
+    (19.94e3, 420, 48),
+    (32.38e3, 510, 64),
+    (52.46e3, 660, 80),
+    (80.21e3, 840, 96),
+    (125.4e3, 1050, 120),
+    (180.8e3, 1260, 144),
+    (321.7e3, 1680, 192),
+    (553.2e3, 2310, 240),
+    (784.8e3, 2730, 288),
+    (1.369e6, 3570, 384),
     // Use polyeval starting from here
     (2.3e6, 4620, 512),       // φ/2=480
     (4.7e6, 4620, 1024),      // φ/2=480
-    (7.1e6, 4620, 1536),      // φ/2=480
-    (9.5e6, 4620, 2048),      // φ/2=480
-    (19e6, 9240, 2048),       // φ/2=960
+    (7.094e6, 4620, 1536),      // φ/2=480
+    (9.459e6, 4620, 2048),      // φ/2=480
+    (18.91e6, 9240, 2048),       // φ/2=960
     (28e6, 9240, 3072),       // φ/2=960
-    (38e6, 9240, 4096),       // φ/2=960
+    (37.84e6, 9240, 4096),       // φ/2=960
     (78e6, 19110, 4096),      // φ/2=2016
     (117e6, 19110, 6144),     // φ/2=2016
     (156e6, 19110, 8192),     // φ/2=2016
-    (322e6, 39270, 8192),     // φ/2=3840
+    (321.6e6, 39270, 8192),     // φ/2=3840
     (643e6, 39270, 16384),    // φ/2=3840
-    (1.3e9, 79170, 16384),    // φ/2=8064
-    (2.6e9, 79170, 32768),    // φ/2=8064
+    (1.297e9, 79170, 16384),    // φ/2=8064
+    (2.594e9, 79170, 32768),    // φ/2=8064
     (5.2e9, 159390, 32768),   // φ/2=15840
-    (10.5e9, 159390, 65536),  // φ/2=15840
+    (10.44e9, 159390, 65536),  // φ/2=15840
     (21.6e9, 330330, 65536),  // φ/2=31680
-    (32.5e9, 330330, 98304),  // φ/2=31680
+    (32.47e9, 330330, 98304),  // φ/2=31680
     (43e9, 330330, 131072),   // φ/2=31680
-    (136e9, 690690, 196608),  // φ/2=63360
+    (135.7e9, 690690, 196608),  // φ/2=63360
     (362e9, 1381380, 262144), // φ/2=126720
     (543e9, 1381380, 393216), // φ/2=126720
     (724e9, 1381380, 524288),
-    (1.5e12, 2852850, 524288), // φ/2=259200
+    (1.495e12, 2852850, 524288), // φ/2=259200
     (2.99e12, 2852850, 1048576),
     (5.98e12, 5705700, 1048576), // φ/2=518400
-    (1.2e13, 5705700, 2097152),
+    (1.196e13, 5705700, 2097152),
     (2.46e13, 11741730, 2097152), // φ/2=1013760
     (4.92e13, 11741730, 4194304),
 ];
